@@ -13,7 +13,7 @@ from tracklib.algo.segmentation import (MODE_COMPARAISON_AND, MODE_COMPARAISON_O
                                         split)
 
 from vt import gen
-from vt.core import SubCheck, Violation, same
+from vt.core import SubCheck, Violation, exc_key, same
 
 NAN = float("nan")
 T0 = gen.ms_of_fields(2020, 1, 1)
@@ -24,7 +24,14 @@ ASSUMPTIONS = [
     "feature values of every observation found in a piece are compared with the generated data, not with the track object",
     "split() is called with limit=0 (the documented default; the length filter is not part of the property)",
     "segmentation(): one threshold per tested feature (lists of equal length, or a bare name + bare number for one feature); "
-    "tested features are ordinary analytical features; the output name differs from every tested feature",
+    "tested features are ordinary analytical features (created with createAnalyticalFeature, not the built-in x/y/z/t/idx); the output "
+    "name is a new name, the name of an existing unrelated feature, or the name of one of the TESTED features (in-place use, "
+    "segmentation(t, 'score', 'score', 0.5)): the marker of row i is judged against the values the tested features held BEFORE the call",
+    "feature names: split() and segmentation() address features by their exact name through get/setObsAnalyticalFeature, and "
+    "createAnalyticalFeature accepts every string except the six built-in names, so the name of the marker / tested / output / other "
+    "features is generated: ordinary identifiers, names holding characters of tracklib's expression mini-language (+ - / * ^ > < ( ) = '), "
+    "names with a leading or trailing blank, and names that read as an expression over (or as the blank-padded name of) OTHER features "
+    "present in the track ('k-w' next to features k and w); a name is an opaque key, the oracle is the same for all of them",
     "OR mode, row whose tested values are all NaN: nothing demanded beyond marker in {0,1} (the statement does not fix it)",
     "pieces: a piece returned by split() is a track like any other, so segmentation() on it is judged by the same marker oracle "
     "(values of the piece at that call) and split() of it by the same partition oracle; creating a feature on one piece (segmentation "
@@ -52,6 +59,27 @@ def _records(pts, times, feats):
 
 
 def _check_split(pts, times, feats, mname):
+    """_split_once, with a root-cause label when it fails for a marker name that is not an ordinary identifier: the same
+    track with the marker feature renamed to a plain name is tried; if that one is split correctly, the NAME was interpreted."""
+    try:
+        _split_once(pts, times, feats, mname)
+    except (Violation, SystemExit, Exception) as e:
+        if type(e).__name__ == "_CaseTimeout" or type(e).__module__.startswith("hypothesis"):
+            raise
+        if _name_class(mname, [f[0] for f in feats if f[0] != mname]) == "name=ordinary":
+            raise
+        plain = "plain__marker"
+        try:
+            _split_once(pts, times, [(plain if f[0] == mname else f[0], f[1]) for f in feats], plain)
+        except (Violation, SystemExit, Exception):
+            raise e
+        what = e.msg if isinstance(e, Violation) else "%s (%s: %s)" % (exc_key(e), type(e).__name__, str(e)[:120])
+        raise Violation("split-marker-name-not-opaque", "marker feature named %r (features %s): %s - %s; the same track with the "
+                        "marker renamed to %r is split correctly" % (mname, [f[0] for f in feats],
+                                                                      e.key if isinstance(e, Violation) else "exception", what, plain))
+
+
+def _split_once(pts, times, feats, mname):
     """feats = ordered [(name, values)], one of them named mname with 0/1 entries."""
     names = [f[0] for f in feats]
     marked = [v == 1 for v in dict(feats)[mname]]
@@ -133,7 +161,10 @@ def _marker_classes(marked):
 # --- (i) all 2^n marker vectors, n = 1..12 --------------------------------------------------------
 # every vector is run in four settings: marker name / position of the marker feature among the
 # other features / int or float 0-1 values
-_VARIANTS = [("m", "last", int), ("#mark", "first", float), ("decoup3", "middle", int), ("seg", "only", float)]
+# ... and in two more with a marker name that is not an identifier: one that reads as an expression over the two other features
+# of the track (k and w), one with a blank in front and an operator inside
+_VARIANTS = [("m", "last", int), ("#mark", "first", float), ("decoup3", "middle", int), ("seg", "only", float),
+             ("k-w", "last", int), (" stop/go", "first", float)]
 
 
 def enum_markers(tier):
@@ -160,7 +191,51 @@ def body_markers(case):
 
 # --- (ii) random longer tracks -------------------------------------------------------------------
 _NAMES = ["m", "#mark", "decoup3", "stop", "pause_1", "M"]
-_OTHER = ["speed", "k", "w", "Temp", "abs_curv"]
+_OTHER = ["speed", "k", "w", "Temp", "abs_curv", "v-max", "acc(x)"]
+# legal feature names (createAnalyticalFeature takes them, split/segmentation of the unchanged tree handle them as opaque keys)
+# that hold characters of the expression mini-language of Track.__getitem__ / operate, or blanks at the ends
+_ODD_NAMES = ["u-turn", "stop/go", "speed>5", "lap+1", "is_stop=1", " mark", "mark ", "stop(1)", "a*b", "k^2", "it's", "d<3", "vit (m/s)"]
+# templates of names that read as an expression over / as the padded name of one or two other features {a}, {b} of the same track
+_EXPR_NAMES = ["{a}-{b}", "{a}+{b}", "{a}*{b}", "{a}/{b}", "{a}>{b}", " {a}", "{a} ", "{a}^2", "2*{a}", "({a})", "{a}=1", "{a}-{a}"]
+
+
+def _name_class(name, present):
+    """label of a feature name with respect to the other feature names present in the track"""
+    core = name.strip()
+    ops = "+-/*^><()='"
+    if core != name and core in present:
+        return "name=padded-other-feature"
+    if any(ch in core for ch in ops):
+        toks, cur = [], ""
+        for ch in core:
+            if ch in ops:
+                toks.append(cur)
+                cur = ""
+            else:
+                cur += ch
+        toks.append(cur)
+        toks = [t.strip() for t in toks if t.strip()]
+        if toks and any(t in present for t in toks) and all(t in present or t.replace(".", "").isdigit() for t in toks):
+            return "name=expression-over-features"
+        return "name=operator-chars"
+    if core != name:
+        return "name=blank-padded"
+    return "name=ordinary"
+
+
+@st.composite
+def _draw_name(draw, ordinary, present):
+    """a marker / output name: ordinary, odd, or - when other features are present - an expression over their names"""
+    kind = draw(st.sampled_from(["ord", "ord", "odd", "odd", "expr", "expr"]))
+    if kind == "expr" and present:
+        a = draw(st.sampled_from(present))
+        b = draw(st.sampled_from(present))
+        name = draw(st.sampled_from(_EXPR_NAMES)).format(a=a, b=b)
+        if name not in present:
+            return name
+    if kind == "odd":
+        return draw(st.sampled_from(_ODD_NAMES))
+    return draw(st.sampled_from(ordinary))
 
 
 @st.composite
@@ -178,13 +253,13 @@ def strat_split(draw):
     c = draw(st.lists(st.integers(-5, 5), min_size=n, max_size=n))      # small range: positions repeat often
     pts = [[c[i] * scale, c[(i * 7 + 3) % n] * scale, float(c[(i * 5 + 1) % n])] for i in range(n)]
     steps = draw(st.lists(st.sampled_from([1, 125, 1000, 1000, 60000, 86400000]), min_size=n, max_size=n))
-    nother = draw(st.integers(0, 3))
+    nother = draw(st.sampled_from([0, 1, 2, 2, 3]))
     pool = [-3, -2, -1, 0, 1, 2, 3, 0, 1, 1.0, NAN, 0.25, -7.5]
     others = []
     for name in draw(st.permutations(_OTHER))[:nother]:
         ix = draw(st.lists(st.integers(0, len(pool) - 1), min_size=n, max_size=n))
         others.append([name, [pool[j] for j in ix]])
-    return {"pts": pts, "steps": steps, "markers": mk, "name": draw(st.sampled_from(_NAMES)),
+    return {"pts": pts, "steps": steps, "markers": mk, "name": draw(_draw_name(_NAMES, [o[0] for o in others])),
             "pos": draw(st.integers(0, nother)), "float": draw(st.booleans()), "others": others}
 
 
@@ -201,7 +276,8 @@ def body_split(case):
     _check_split([tuple(p) for p in case["pts"]], times, feats, case["name"])
     marked = [v == 1 for v in mk]
     return {"nt": any(marked), "cls": _marker_classes(marked) + ["n<=12" if n <= 12 else "n>12",
-                                                               "other-features=%d" % len(case["others"])]}
+                                                               "other-features=%d" % len(case["others"]),
+                                                               _name_class(case["name"], [o[0] for o in case["others"]])]}
 
 
 # =================================================================================================
@@ -217,20 +293,32 @@ def _want_marker(row, thr, mode_or):
     return 1 if any(cmp) else 0
 
 
+def _inplace_ok_elsewhere(case):
+    """root-cause label for an in-place case that fails: does the same call with a NEW output name give the right marker?"""
+    alt = dict(case, out={"name": "__fresh__", "init": None, "inplace": None})
+    try:
+        _check_seg(alt)
+    except Violation:
+        return False
+    return True
+
+
 def _check_seg(case):
     """case: names [k], rows [n][k], thr [k], mode 0 (argument omitted = AND) | 1 (AND) | 2 (OR),
     conv 'list' | 'scalar' | 'mixed' (the latter two only for k == 1),
-    out {'name', 'init': None (new feature) | number (existing feature filled with it)},
+    out {'name', 'init': None (new feature) | number (existing feature filled with it), 'inplace': None | c (the output is the
+    tested feature number c: name and init are not used; the marker is judged against rows, the values before the call)},
     before / after: lists of values of two unrelated features placed before / after the tested ones."""
     names, rows, thr = case["names"], case["rows"], case["thr"]
     n, k = len(rows), len(names)
-    out = case["out"]["name"]
+    inplace = case["out"].get("inplace")
+    out = case["out"]["name"] if inplace is None else names[inplace]
     feats = []
     if case.get("before") is not None:
         feats.append(("b4", list(case["before"])))
     for c in case.get("order", range(k)):                 # creation order of the tested features in the track
         feats.append((names[c], [rows[i][c] for i in range(n)]))
-    if case["out"]["init"] is not None:
+    if inplace is None and case["out"]["init"] is not None:
         feats.append((out, [case["out"]["init"]] * n))
     if case.get("after") is not None:
         feats.append(("aft", list(case["after"])))
@@ -275,7 +363,9 @@ def _check_seg(case):
         if g != want:
             eq = any(v == t for v, t in zip(rows[i], thr) if not _isnan(v))
             nn = sum(1 for v in rows[i] if not _isnan(v))
-            if g == (w_or if not mode_or else w_and) and w_or is not None and w_and != w_or:
+            if inplace is not None and _inplace_ok_elsewhere(case):
+                key = "seg-in-place-output-wrong"
+            elif g == (w_or if not mode_or else w_and) and w_or is not None and w_and != w_or:
                 key = "seg-mode-mixed-up"
             elif eq and want == 0:
                 key = "seg-equal-counts-as-exceeding"
@@ -283,8 +373,9 @@ def _check_seg(case):
                 key = "seg-nan-not-ignored"
             else:
                 key = "seg-marker-wrong"
-            raise Violation(key, "row %d: values %s thresholds %s mode %s -> marker %r, expected %d" % (
-                i, rows[i], thr, "OR" if mode_or else "AND", g, want))
+            raise Violation(key, "row %d: features %s values %s thresholds %s mode %s output %r%s -> marker %r, expected %d" % (
+                i, names, rows[i], thr, "OR" if mode_or else "AND", out,
+                " (one of the tested features: values before the call count)" if inplace is not None else "", g, want))
     # everything else untouched
     for name, vals in feats:
         if name == out:
@@ -292,7 +383,16 @@ def _check_seg(case):
         now = tr.getAnalyticalFeature(name)
         if len(now) != n or not all(same(a, b) for a, b in zip(now, vals)):
             raise Violation("seg-other-feature-changed", "feature %r: %s -> %s" % (name, vals, now))
-    cls = ["k=%d" % k, "mode-or" if mode_or else "mode-and", "out-existing" if case["out"]["init"] is not None else "out-new"]
+    if inplace is not None:
+        cls = ["out-in-place-" + ("only-tested" if k == 1 else "first-tested" if inplace == 0 else "later-tested")]
+    else:
+        cls = ["out-existing" if case["out"]["init"] is not None else "out-new"]
+    cls += ["k=%d" % k, "mode-or" if mode_or else "mode-and"]
+    present = [f[0] for f in feats]
+    for lab, nm in [("tested-", c) for c in names] + ([("out-", out)] if inplace is None else []):
+        nc = _name_class(nm, [q for q in present if q != nm])
+        if nc != "name=ordinary":
+            cls.append(lab + nc)
     for lab, key in (("value==threshold", "eq"), ("nan", "nan"), ("and!=or", "differ"), ("all-nan-row", "allnan")):
         if info[key]:
             cls.append(lab)
@@ -323,6 +423,10 @@ def enum_grid(tier):
                         yield {"names": _TESTED[:k], "rows": rows, "thr": list(thr), "mode": mode, "conv": conv,
                                "out": {"name": "decoup", "init": None if delta == 0.5 else 7},
                                "before": None, "after": None}
+                        # the same table with the marker written over one of the tested features (first / last in turn)
+                        yield {"names": _TESTED[:k], "rows": rows, "thr": list(thr), "mode": mode, "conv": conv,
+                               "out": {"name": None, "init": None, "inplace": 0 if delta == 0.5 else k - 1},
+                               "before": None, "after": None}
 
 
 # --- (iv) random ---------------------------------------------------------------------------------
@@ -339,7 +443,15 @@ def _cell(j, t):
 def strat_seg(draw):
     n = draw(st.integers(1, 12))
     k = draw(st.integers(1, 3))
-    names = list(draw(st.permutations(_TESTED + ["f1", "#tmp"]))[:k])
+    names = list(draw(st.permutations(_TESTED + ["f1", "#tmp", "v-max", "acc(x)", "speed>5", " lead", "d/dt"]))[:k])
+    extra = draw(st.integers(0, 3))
+    # a tested feature whose name reads as an expression over the other features of the track
+    if draw(st.integers(0, 3)) == 0:
+        present = names[1:] + (["b4"] if extra & 1 else []) + (["aft"] if extra & 2 else [])
+        if present:
+            nm = draw(st.sampled_from(_EXPR_NAMES)).format(a=draw(st.sampled_from(present)), b=draw(st.sampled_from(present)))
+            if nm not in present:
+                names[0] = nm
     thr = [draw(st.sampled_from(_LATTICE + [0, 1, -1, 35])) for _ in range(k)]
     ix = draw(st.lists(st.integers(0, 23), min_size=n * k, max_size=n * k))
     rows = [[_cell(ix[i * k + c], thr[c]) for c in range(k)] for i in range(n)]
@@ -347,12 +459,15 @@ def strat_seg(draw):
         rows[draw(st.integers(0, n - 1))] = [NAN] * k
     conv = draw(st.sampled_from(["list", "scalar", "mixed"])) if k == 1 else "list"
     upool = [-3, -1, 0, 1, 2, NAN, 0.5, -4.75]
-    extra = draw(st.integers(0, 3))
     ux = draw(st.lists(st.integers(0, len(upool) - 1), min_size=2 * n, max_size=2 * n))
+    oname = draw(_draw_name(["decoup", "#mark", "m"], names + (["b4"] if extra & 1 else []) + (["aft"] if extra & 2 else [])))
+    if oname in names:                                         # (odd pools overlap): in-place is a dimension of its own below
+        oname = "decoup"
     return {"names": names, "rows": rows, "thr": thr, "mode": draw(st.sampled_from([0, 1, 2, 2])), "conv": conv,
             "order": list(draw(st.permutations(list(range(k))))),
-            "out": {"name": draw(st.sampled_from(["decoup", "#mark", "m"])),
-                    "init": draw(st.sampled_from([None, None, 0, 1, 7, NAN]))},
+            "out": {"name": oname,
+                    "init": draw(st.sampled_from([None, None, 0, 1, 7, NAN])),
+                    "inplace": draw(st.sampled_from([None, None, None, 0, k - 1, draw(st.integers(0, k - 1))]))},
             "before": [upool[j] for j in ux[:n]] if extra & 1 else None,
             "after": [upool[j] for j in ux[n:]] if extra & 2 else None}
 
@@ -366,20 +481,28 @@ def body_chain(case):
     pts = [(float(i), 0.0, 0.0) for i in range(n)]
     times = [T0 + 1000 * i for i in range(n)]
     tr = _build(pts, times, [("v", list(vals))])
-    segmentation(tr, "v", "#mark", t)
+    mname = case.get("out", "#mark")                            # "v": the marker replaces the tested feature (in-place use)
+    segmentation(tr, "v", mname, t)
     want = [_want_marker([v], [t], False) for v in vals]
-    got = tr.getAnalyticalFeature("#mark")
+    got = tr.getAnalyticalFeature(mname)
     if [g for g in got] != want:
-        raise Violation("seg-marker-wrong", "values %s threshold %s -> %s, expected %s" % (vals, t, got, want))
-    _check_split(pts, times, [("v", list(vals)), ("#mark", want)], "#mark")
+        raise Violation("seg-marker-wrong" if mname != "v" else "seg-in-place-output-wrong",
+                        "values %s threshold %s output %r -> %s, expected %s" % (vals, t, mname, got, want))
+    after = [("v", want)] if mname == "v" else [("v", list(vals)), (mname, want)]
+    # the track that segmentation() marked is the one that is split
+    coll = split(tr, mname)
     marked = [w == 1 for w in want]
-    return {"nt": any(marked) and not all(marked), "cls": _marker_classes(marked)}
+    _judge_pieces([coll.getTrack(j) for j in range(coll.size())], _records(pts, times, after), [f[0] for f in after], marked)
+    _check_split(pts, times, after, mname)
+    return {"nt": any(marked) and not all(marked),
+            "cls": _marker_classes(marked) + ["out-in-place" if mname == "v" else _name_class(mname, ["v"]).replace("name=", "out-name-")]}
 
 
 def strat_chain():
     v = st.one_of(st.sampled_from(_LATTICE), st.just(NAN))
-    return st.tuples(st.lists(v, min_size=1, max_size=20), st.sampled_from(_LATTICE[1:7])).map(
-        lambda p: {"vals": p[0], "thr": p[1]})
+    return st.tuples(st.lists(v, min_size=1, max_size=20), st.sampled_from(_LATTICE[1:7]),
+                     st.sampled_from(["#mark", "#mark", "v", "v", "v-1", " v", "v>0", "stop/go"])).map(
+        lambda p: {"vals": p[0], "thr": p[1], "out": p[2]})
 
 
 # --- (vi) follow-up operations on the pieces returned by split ---------------------------------------
@@ -462,7 +585,7 @@ def body_pieces(case):
     names0 = [f[0] for f in feats]
     marked = [v == 1 for v in mk]
     orig = _records(pts, times, feats)
-    cls = ["via=" + case["via"]]
+    cls = ["via=" + case["via"], "marker-" + _name_class(mname, [f[0] for f in feats if f[0] != mname])]
 
     src = _build(pts, times, feats)
     if case["via"] == "split":
@@ -509,7 +632,7 @@ def body_pieces(case):
                 _judge_marker(pieces[j], pms[j], op, "op %d segmentation, piece %d of %d" % (k, j, len(pieces)))
         if out in names0:
             overwritten.add(out)
-        cls.append("seg-%s-out-%s-on-%s" % (op["how"], "existing" if len(fresh) < len(sel) else "new",
+        cls.append("seg-%s-out-%s-on-%s" % (op["how"], "in-place" if out in op["names"] else "existing" if len(fresh) < len(sel) else "new",
                                             "1-piece" if len(sel) == 1 else "2+pieces"))
         if len(fresh) >= 2:
             newseg += 1
@@ -564,7 +687,7 @@ def strat_pieces(draw):
     for name in draw(st.permutations(["k", "w", "abs_curv", "alt"]))[:nother]:     # disjoint from _TESTED and _NAMES
         ix = draw(st.lists(st.integers(0, len(pool) - 1), min_size=n, max_size=n))
         others.append([name, [pool[j] for j in ix]])
-    mname = draw(st.sampled_from(_NAMES))
+    mname = draw(_draw_name(_NAMES, [o[0] for o in others]))
     kt = draw(st.sampled_from([1, 1, 2]))
     tnames = list(draw(st.permutations(_TESTED))[:kt])
     tthr = [draw(st.sampled_from(_LATTICE[2:8])) for _ in range(kt)]
@@ -585,18 +708,27 @@ def strat_pieces(draw):
                     "thr": [draw(st.sampled_from([tthr[c], tthr[c], tthr[c] + 0.5, tthr[c] - 1])) for c in cols],
                     "mode": draw(st.sampled_from([0, 1, 2])),
                     "conv": draw(st.sampled_from(["list", "scalar", "mixed"])) if k == 1 else "list",
-                    "out": draw(st.sampled_from(_NEW_OUT + _NEW_OUT + existing))})
+                    # a new name, an existing unrelated feature (incl. the marker), or one of the features this call tests
+                    "out": draw(st.sampled_from(_NEW_OUT + _NEW_OUT + existing + [tnames[c] for c in cols] * 2))})
     return {"pts": pts, "steps": steps, "markers": mk, "name": mname, "pos": draw(st.integers(0, nother)),
             "float": draw(st.booleans()), "others": others, "tested": tested,
             "via": draw(st.sampled_from(["split", "split", "split_segmentation"])), "ops": ops}
 
 
-RULE = ("markers: every 0/1 marker vector of length 1..12 (8190), each run with 4 feature layouts (marker feature "
-        "first/middle/last/alone, int or float values, 4 names); split_random: Hypothesis, 1..60 observations, marker density "
-        "0..1 with forced first/last markers, repeated positions, 0..3 other features; seg_grid: for 1..3 tested features, "
+RULE = ("markers: every 0/1 marker vector of length 1..12 (8190), each run with 6 feature layouts (marker feature "
+        "first/middle/last/alone, int or float values, 6 names: 4 identifiers, 'k-w' next to features k and w, ' stop/go'); "
+        "split_random: Hypothesis, 1..60 observations, marker density "
+        "0..1 with forced first/last markers, repeated positions, 0..3 other features; the NAME of the marker feature is generated: "
+        "identifier / name with characters + - / * ^ > < ( ) = ' / leading or trailing blank / expression over (or blank-padded name of) "
+        "the other features of the track; a failure that disappears when the marker is renamed gets the key split-marker-name-not-opaque; "
+        "seg_grid: for 1..3 tested features, "
         "thresholds from {-1,0,2.5}^k, mode omitted/AND/OR, the track holds one row for every below/equal/above/NaN pattern "
-        "(4^k rows), margins 0.5 and 2^-20; seg_random: Hypothesis on a half-integer lattice with NaN, values equal to the "
-        "threshold, 1..12 rows; chain: segmentation() then split() on its marker. "
+        "(4^k rows), margins 0.5 and 2^-20, output written to a new / existing feature and, every table once more, over the first / "
+        "last tested feature (in place); seg_random: Hypothesis on a half-integer lattice with NaN, values equal to the "
+        "threshold, 1..12 rows, names of tested and output features generated like the marker names, output = new name / existing "
+        "unrelated feature / one of the tested features (first, last, any position: judged against the values before the call); "
+        "chain: segmentation() into '#mark', into an oddly named feature or over the tested feature itself, then split() of that "
+        "track on the marker; pieces: the output of a segmentation on a piece may be one of the features it tests. "
         "Non-trivial: split - at least one marked observation (the unmarked case is the documented empty result); "
         "segmentation - some tested value equals its threshold, or is NaN, or AND and OR modes disagree on some row; "
         "pieces - at least two non-empty pieces and a segmentation among the operations. "
@@ -606,9 +738,10 @@ RULE = ("markers: every 0/1 marker vector of length 1..12 (8190), each run with 
 FUZZ = {'seg_random': 10000}
 
 SUBCHECKS = [
-    SubCheck("markers", body_markers, enum=enum_markers, rule="all 2^n marker vectors, n=1..12", qshards=8),
+    SubCheck("markers", body_markers, enum=enum_markers, rule="all 2^n marker vectors, n=1..12, 6 layouts / marker names each", qshards=8),
     SubCheck("split_random", body_split, strategy=strat_split, quick=3000, thorough=48000, qshards=6),
-    SubCheck("seg_grid", _check_seg, enum=enum_grid, rule="all below/equal/above/NaN patterns, k=1..3", qshards=2, tshards=2),
+    SubCheck("seg_grid", _check_seg, enum=enum_grid, rule="all below/equal/above/NaN patterns, k=1..3, output separate and in place",
+             qshards=2, tshards=2),
     SubCheck("seg_random", _check_seg, strategy=strat_seg, quick=6000, thorough=120000, qshards=6),
     SubCheck("chain", body_chain, strategy=strat_chain, quick=1500, thorough=30000),
     SubCheck("pieces", body_pieces, strategy=strat_pieces, quick=3000, thorough=60000, qshards=6,
